@@ -33,6 +33,58 @@ def s14_routes(ctx):
     return res
 
 
+def split_box(rng, area, ar, t):
+    """the box area as 2..4 ADJACENT rows (an outcrop mapped as neighbouring sub-areas / grid cells sharing edges); the cuts avoid every node of the
+    arrangement by 60 x t, so the union is the same target area and no node sits on an inner edge. None if no such cut exists."""
+    from shapely.geometry import box
+
+    x0, y0, x1, y1 = area.bounds
+    pts = [(float(p[0]), float(p[1])) for p, _ in ar.nodes]
+
+    def cut(lo, hi, coord):
+        for _ in range(40):
+            c = lo + (hi - lo) * rng.randint(8, 56) / 64
+            if all(abs(p[coord] - c) > 60 * t for p in pts):
+                return c
+        return None
+
+    cx = cut(x0, x1, 0)
+    if cx is None:
+        return None
+    mode = rng.choice(["two_columns", "two_columns_rev", "four_cells", "three"])
+    if mode == "two_columns":
+        return [box(x0, y0, cx, y1), box(cx, y0, x1, y1)]
+    if mode == "two_columns_rev":
+        return [box(cx, y0, x1, y1), box(x0, y0, cx, y1)]
+    cy = cut(y0, y1, 1)
+    if cy is None:
+        return [box(x0, y0, cx, y1), box(cx, y0, x1, y1)]
+    if mode == "four_cells":
+        return [box(x0, y0, cx, cy), box(cx, y0, x1, cy), box(x0, cy, cx, y1), box(cx, cy, x1, y1)]
+    return [box(x0, y0, cx, y1), box(cx, y0, x1, cy), box(cx, cy, x1, y1)]
+
+
+def s14_adjacent(ctx):
+    import_fractopo()
+    res = StreamResult("S14-adjacent-areas", rule="valid maps (Lean oracle) in a box target area given as 2..4 ADJACENT area rows sharing edges (columns, reversed order, 2x2 cells, "
+                       "one column + two cells; cuts keep 60 x snap away from every node) x the four routes, each compared with the exact arrangement of the "
+                       "map in the union: a trace crossing an inner edge stays one piece; non-trivial = every map (the generated traces span the whole area)")
+    rng = rng_for(ctx.seed, "S14adj")
+    t = 0.01
+    maps, _ = valid_maps(ctx, rng, budget(ctx.tier, 24, 400), F(t), area_kinds=("box",))
+    out = []
+    for traces, area, kind, ar in maps:
+        rows = split_box(rng, area, ar, t)
+        if rows is None:
+            res.skipped["no_clean_cut"] = res.skipped.get("no_clean_cut", 0) + 1
+            continue
+        out.append((traces, rows, f"box as {len(rows)} adjacent rows", ar))
+    before = res.nontrivial
+    c01.run_maps(ctx, out, t, res, "S14-adjacent-areas", routes=ALL_ROUTES)
+    res.nontrivial = before + len(out)
+    return res
+
+
 def s14_fixed_point_io(ctx):
     import_fractopo()
     import geopandas as gpd
@@ -158,12 +210,29 @@ def _compare_routes(case):
     return None
 
 
-STREAMS = [s14_routes, s14_fixed_point_io, s14_slivers]
+STREAMS = [s14_routes, s14_adjacent, s14_fixed_point_io, s14_slivers]
 
 
 def replay(ctx, stream, case):
     if stream == "S14-routes":
         return c01.replay(ctx, stream, case)
+    if stream == "S14-adjacent-areas":
+        import_fractopo()
+        from shapely.geometry import Polygon, box
+        from shapely.ops import unary_union
+
+        from harness.common import parse_lines
+        from harness.mapgen import Arrangement, arr_request
+
+        traces = parse_lines(case["traces"])
+        rows = [Polygon([(float(x), float(y)) for x, y in parse_lines(r.split("&")[0])[0]]) for r in case["areas"].split("#")]
+        whole = box(*unary_union(rows).bounds)
+        ar = Arrangement(ctx.driver.batch([arr_request(traces, [whole], F(case["t"]))])[0])
+        if not ar.valid:
+            return None
+        res = StreamResult("replay")
+        c01.run_maps(ctx, [(traces, rows, case.get("area_kind"), ar)], case["t"], res, stream, routes=(case["route"],) if "route" in case else ALL_ROUTES)
+        return res.disagreements[0] if res.disagreements else None
     if stream == "S14-slivers":
         import_fractopo()
         return _compare_routes(case)
